@@ -239,7 +239,15 @@ fn no_esc(check: char, match_char: char, previous: char) -> bool {
 /// # Return
 /// * `Token`
 ///
-fn group_tokens(tokens: &Vec<Token>, mut index: usize) -> Token {
+fn group_tokens(tokens: &Vec<Token>, index: usize) -> Token {
+    let (token, _) = group_tokens_from(tokens, index);
+    return token;
+} // group_tokens
+
+// Collects the tokens of one group, starting at the given index.
+// Returns the group, and the index of the right parenthesis which
+// closes it (or the number of tokens, if there is none).
+fn group_tokens_from(tokens: &Vec<Token>, mut index: usize) -> (Token, usize) {
 
     let mut new_tokens: Vec<Token> = vec![];
     let size = tokens.len();
@@ -250,16 +258,17 @@ fn group_tokens(tokens: &Vec<Token>, mut index: usize) -> Token {
         let the_type = token.get_type();
 
         if the_type == TokenType::LParen {
-            index += 1;
             // Make a GROUP token.
-            let t = group_tokens(tokens, index);
-            // Skip past tokens already processed.
+            let (t, right_paren) = group_tokens_from(tokens, index + 1);
+            // Skip past tokens already processed. A group which contains
+            // groups spans more tokens than it has children, so the
+            // position of its right parenthesis is what counts.
             // +1 for right parenthesis
-            index += t.number_of_children() + 1;
+            index = right_paren + 1;
             new_tokens.push(t);
         } else if the_type == TokenType::RParen {
             // Add all remaining tokens to the list.
-            return make_branch_token(TokenType::Group, new_tokens);
+            return (make_branch_token(TokenType::Group, new_tokens), index);
         } else {
             new_tokens.push(token);
         }
@@ -267,9 +276,9 @@ fn group_tokens(tokens: &Vec<Token>, mut index: usize) -> Token {
 
     } // for
 
-    return make_branch_token(TokenType::Group, new_tokens)
+    return (make_branch_token(TokenType::Group, new_tokens), index);
 
-} // group_tokens
+} // group_tokens_from
 
 
 /// group_and_tokens()
